@@ -15,7 +15,7 @@ def feed(path, label):
         name, prop, rc, nv, t = m.group(1), m.group(2), int(m.group(3)), int(m.group(4)), int(m.group(5))
         out = "/verif/work_seed/out/%s__%s.out" % (name, prop)
         first = ""
-        if os.path.exists(out) and label == "v3":
+        if os.path.exists(out):
             for ll in open(out):
                 if ll.startswith("  what:"):
                     first = ll.strip()[6:300]
